@@ -1,6 +1,6 @@
 (* Properties_C11_iff.v — property C11 (compilation gives constructs their RFC meaning), if-feature part:
    theorem statements only. Model: IfFeature.v (lys_compile_iffeature, lysc_iffeature_value of
-   src/schema_features.c, index style); proofs: IfFeatureP.v. *)
+   src/schema_features.c, index style, as of /repo commits 299b7de, 6f66310, 685c1af); proofs: IfFeatureP.v. *)
 From LY Require Import Base IfFeature IfFeatureP.
 Local Open Scope N_scope.
 
@@ -14,43 +14,30 @@ Proof. exact eval_prefix_correct'. Qed.
 Print Assumptions C11_iffeature_eval_prefix_correct.
 
 (* iffeature_correct at full strength: every string r derivable from the RFC 7950 if-feature grammar
-   (any parenthesisation, any white-space) with parse tree e, whose feature names the module resolves,
-   compiles, and the compiled expression evaluates to the denotation of e under every assignment.
-   This is FALSE for the code as it is: *)
+   (any parenthesisation; sep / optsep any run of SP, HTAB, LF, CR, VT, FF) with parse tree e, whose
+   feature names the module resolves, compiles, and the compiled expression evaluates to the denotation
+   of e under every assignment. The result includes: no out-of-bounds access in either pass and in the
+   evaluation, pre-pass sizes = number of records / features the main pass writes.
+   History: this was false for the earlier code (`not (not a)` is in the grammar and ran out of the
+   expression array) and was proved only under the side condition not_cancel_adjacent; the defect was
+   fixed in /repo commit 299b7de (the other two fixes, 6f66310 and 685c1af, concern ungrammatical
+   strings only) and the theorem now holds without side condition. *)
 Definition iffeature_correct_statement : Prop :=
   forall lookup e r, rexpr e r -> (forall x, In x (feats e) -> lookup x = Some x) -> len_ok r ->
     exists c, compile lookup true r = IOk c /\ forall env, iff_value c env = IOk (denote env e).
 
-(* witness: `not (not a)` is in the grammar, a is a feature of the module, and the compiler runs out of
-   the expression array (the real code crashes with SIGSEGV) *)
-Theorem C11_iffeature_correct_refuted :
-  exists lookup e r, rexpr e r /\ (forall x, In x (feats e) -> lookup x = Some x) /\ len_ok r /\
-                     compile lookup true r = IOob.
-Proof.
-  exists lookup_abc, (Not (Not (F [97]))), w_not_paren. repeat split.
-  - exact rexpr_not_paren.
-  - intros x [<-|[]]. reflexivity.
-Qed.
-Print Assumptions C11_iffeature_correct_refuted.
-
-Theorem C11_iffeature_correct_statement_false : ~ iffeature_correct_statement.
-Proof.
-  intro H. destruct C11_iffeature_correct_refuted as (lookup & e & r & H1 & H2 & H3 & H4).
-  destruct (H lookup e r H1 H2 H3) as (c & Hc & _). congruence.
-Qed.
-Print Assumptions C11_iffeature_correct_statement_false.
-
-(* iffeature_correct for the whole grammar family minus the defect: the same statement under the one
-   extra hypothesis that the pre-pass never cancels a `not` against an earlier one across a parenthesis
-   (not_cancel_adjacent, an executable check on r). Covers every parenthesisation and every white-space
-   variant (SP, HTAB, LF, CR, VT, FF in any number). The result includes: no out-of-bounds access in either
-   pass and in the evaluation, pre-pass sizes = number of records / features the main pass writes. *)
-Theorem C11_iffeature_correct_partial :
-  forall lookup e r, rexpr e r -> (forall x, In x (feats e) -> lookup x = Some x) ->
-    not_cancel_adjacent r = true -> len_ok r ->
-    exists c, compile lookup true r = IOk c /\ forall env, iff_value c env = IOk (denote env e).
+Theorem C11_iffeature_correct : iffeature_correct_statement.
 Proof. exact compile_grammar. Qed.
-Print Assumptions C11_iffeature_correct_partial.
+Print Assumptions C11_iffeature_correct.
+
+(* regression: the former refutation witness `not (not a)` is in the grammar and now compiles to the
+   three records NOT NOT F, which evaluate to a *)
+Example C11_former_witness :
+  rexpr (Not (Not (F [97]))) w_not_paren /\
+  compile lookup_abc true w_not_paren = IOk ([48], [Some [97]], 1) /\
+  iff_value ([48], [Some [97]], 1) (env_abc true false false) = IOk true /\
+  iff_value ([48], [Some [97]], 1) (env_abc false true true) = IOk false.
+Proof. split; [exact rexpr_not_paren|]. vm_compute. repeat split. Qed.
 
 (* the two concrete renderers (all operator applications in parentheses / only the parentheses the
    grammar requires) produce strings of the grammar for every expression *)
@@ -65,13 +52,12 @@ Print Assumptions C11_render_min_in_grammar.
    parentheses: `a and not not b or not (c and not a)` *)
 Example C11_hypotheses_satisfiable :
   rexpr ex_e (render_min 2 ex_e) /\ (forall x, In x (feats ex_e) -> lookup_abc x = Some x) /\
-  not_cancel_adjacent (render_min 2 ex_e) = true /\ len_ok (render_min 2 ex_e) /\
+  len_ok (render_min 2 ex_e) /\
   compile lookup_abc true (render_min 2 ex_e)
     = IOk ([246; 52; 3], [Some [97]; Some [98]; Some [99]; Some [97]], 4).
 Proof.
-  split; [exact (render_min_rexpr ex_e ex_e_names)|]. split; [|split; [|split]].
+  split; [exact (render_min_rexpr ex_e ex_e_names)|]. split; [|split].
   - intros x Hx. cbn in Hx. repeat (destruct Hx as [<-|Hx]; [reflexivity|]). destruct Hx.
-  - vm_compute. reflexivity.
   - unfold len_ok. cbn. lia.
   - vm_compute. reflexivity.
 Qed.
